@@ -89,7 +89,49 @@ package isolation
 // whole-set load: grouping by resource must cope with any element, including nil
 //@ func LoadRules(rules) (changed, err)
 //@   props C13
-//@   requires ruleMap != nil && currentRules != nil && ruleMap != currentRules
+//@   objinv ruleMap != nil && currentRules != nil && ruleMap != currentRules
 //@   panics never
+//@   sets gIsoLoadN = old(gIsoLoadN) + 1
+//@   sets gIsoLoadArg = rules
+//@   ensures[recorded] gIsoLoadN == old(gIsoLoadN) + 1 && gIsoLoadArg == rules
+//@   modifies heap, gIsoLoadN, gIsoLoadArg
 //@   witness n = len(rules)
 //@   replay loadrules_nil
+
+// whole-set rebuild: the raw map is recorded, a fresh map is published, and the caller's lists are not written
+// (frame: nothing allocated before the call changes except the two package variables). That the fresh map holds
+// exactly the valid rules is not proved here (nested map-of-slices invariant; see DESIGN.md).
+//@ func onRuleUpdate(rawResRulesMap) err
+//@   props C13
+//@   requires ruleMap != nil
+//@   ensures[never-fails] err == nil
+//@   ensures[raw-recorded] currentRules == rawResRulesMap
+//@   ensures[fresh-map] ruleMap != nil && fresh(ruleMap)
+//@   modifies ruleMap, currentRules
+//@   loop 1:
+//@     invariant[new-map] validResRulesMap != nil && fresh(validResRulesMap)
+//@     invariant[callers-lists-untouched] frame()
+//@   loop 2:
+//@     invariant[new-map] validResRulesMap != nil && fresh(validResRulesMap)
+//@     invariant[list-fresh] fresh(base(validResRules))
+//@     invariant[callers-lists-untouched] frame()
+
+//@ func rulesFrom(m) rules
+//@   props C13
+//@   ensures[fresh] cap(rules) == 0 || fresh(base(rules))
+//@   modifies nothing
+//@   loop 1:
+//@     invariant[fresh] cap(rules) == 0 || fresh(base(rules))
+//@     invariant[untouched] frame()
+//@   loop 2:
+//@     invariant[fresh] cap(rules) == 0 || fresh(base(rules))
+//@     invariant[untouched] frame()
+
+// ---- loader entry points as seen by the datasource layer (C18): calls are recorded
+//@ ghost var gIsoLoadN Int
+//@ ghost var gIsoLoadArg Slice
+//@ ghost var gIsoClearN Int
+//@ func ClearRules() err
+//@   assumed
+//@   ensures gIsoClearN == old(gIsoClearN) + 1
+//@   modifies gIsoClearN
